@@ -180,7 +180,7 @@ def direct_cases():
     for kw in ({'concentration': '0.5 M', 'total_quantity': '100 mL'}, {'concentration': '1 mM', 'total_quantity': '2 mL'},
                {'quantity': '3 mg', 'total_quantity': '500 uL'}, {'concentration': '0.02 g/g', 'quantity': '1.5 g'},
                {'concentration': '5 %w/v', 'total_quantity': '10 mL'}):
-        for solute, solvent in (('nacl', 'water'), ('nacl', 'L'), ('dmso', 'water'), ('na2so4', 'A')):
+        for solute, solvent in (('nacl', 'water'), ('nacl', 'L'), ('dmso', 'water'), ('na2so4', 'A'), ('nacl', 'A')):
             acts.append({'op': 'create_solution', 'solute': solute, 'solvent': solvent, 'name': 'N', 'kw': kw})
     for kw in ({'concentration': '2 U/mL', 'total_quantity': '10 mL'}, {'quantity': '300 U', 'total_quantity': '5 g'}):
         acts.append({'op': 'create_solution', 'solute': 'lipase', 'solvent': 'water', 'name': 'N', 'kw': kw})
@@ -282,6 +282,19 @@ def _direct(ai):
         cands = candidates(pp, subs, before, after, requested(*[v for v in act['kw'].values() if isinstance(v, str)]))
         text = new['N'].instructions
         feat = f"create_solution,solvent={'container' if act['solvent'] in world else 'substance'}"
+        if act['solvent'] in world:
+            # a solute that the solvent container already holds: "Add <x> of <solute>" can only mean what was ADDED, not what
+            # the new solution holds in the end (weighed in + arrived dissolved) - that reading is withdrawn here
+            solutes = act['solute'] if isinstance(act['solute'], list) else [act['solute']]
+            for sn in solutes:
+                s = subs[sn]
+                if world[act['solvent']].contents.get(s, 0.0) > 0:
+                    rs = ref.rsub(s)
+                    final = new['N'].contents.get(s, 0.0)
+                    drop = {(b, float(ref.base_amount(pp, rs, final) * ref.per_base(rs, b))) for b in ('L', 'g', 'mol', 'U')
+                            if ref.per_base(rs, b)}
+                    cands = [c for c in cands if not (c[2] == s.name and (c[0], c[1]) in drop)]
+                    feat += ',solvent-holds-solute'
     else:
         cands = candidates(pp, subs, [None, world[act['src']]], [new['N'], new[act['src']]], requested(act['q']))
         # pure solvent added is part of the new solution's contents (delta vs nothing): covered by 'present afterwards'
